@@ -211,6 +211,18 @@ Definition multipart_boundary (ct : bytes) : bytes :=
     end
   else [].
 
+(* the literals of the modelled functions, regenerated from the source (translator funclits): a changed
+   constant breaks this tie and with it the build of the model *)
+Example framing_lits_tie :
+  mfbLits_ints = [0; 0; Z.of_N SEMI; 0; Z.of_N SP; Z.of_N SEMI; 0; 0; 0; Z.of_N EQS; 1; Z.of_N SEMI; 0; 1; 0;
+                  Z.of_N DQ; 1; Z.of_N DQ; 1; 1]%Z                      (* MultipartFormBoundary: ';' ' ' ';' '=' ';' '"' '"' *)
+  /\ mfbLits_strs = [strMultipartFormData; strMultipartFormData; strBoundary; strBoundary]
+  /\ hd 0%Z scanNextLits_ints = 2%Z                                     (* headerScanner.next: s.r = 2 on an empty block (PTOk 2) *)
+  /\ hd [] scanNextLits_strs = strCRLF
+  /\ continueReadBodyLits_ints = [0; 0; 0; 0; 0; 2; 0; 1]%Z             (* ContinueReadBody: contentLength > 0, == -2, == -1 *)
+  /\ tryReadTrailerLits_ints = [0; 1]%Z.                                (* tryReadTrailer: len(b) == 0, n == 1 *)
+Proof. repeat split; reflexivity. Qed.
+
 (* ================= the serve loop, framing part ================= *)
 Record fcfg := {
   c_reduce : bool;             (* ReduceMemoryUsage: no effect on framing (kept so that the harness can vary it) *)
